@@ -416,11 +416,19 @@ def gen_zone_history(rnd, sid, focus="C06"):
         if rnd.random() < 0.3:
             g.op_now(g.now[0], g.now[1] + rnd.choice([1, 2, 50]))
     g.op_zone(-1)
-    for _ in range(rnd.randint(3, 9)):
-        g.op_now(g.now[0], g.now[1] + rnd.choice([1, 1, 3, 40]))
-        g.op_send(rnd.choice(size_choices(L, minlen)))
-        if rnd.random() < 0.15:
-            g.op_flush()
+    # without a retention limit the calendar may also return to the day it left (A, B, A, B): the next index for a day
+    # is one more than the highest index that day already has
+    legs = 1 if N > 0 else rnd.choice([1, 2, 3])
+    for leg in range(legs):
+        if leg:
+            g.op_zone(0 if g.tz else -1)
+        for _ in range(rnd.randint(3, 9) if legs == 1 else rnd.randint(2, 5)):
+            g.op_now(g.now[0], g.now[1] + rnd.choice([1, 1, 3, 40]))
+            g.op_send(rnd.choice(size_choices(L, minlen)))
+            if rnd.random() < 0.15:
+                g.op_flush()
+    if legs > 1:
+        s.tags.add("zone-return")
     s.tags.add("zone-back")
     return s
 
